@@ -181,11 +181,13 @@ func (dm *DMap) syncPutOnCluster(e *env, nt storage.Entry) error {
 		rc := dm.s.client.Get(owner.String())
 		cmd := protocol.NewPutEntry(dm.name, e.key, encodedEntry).Command(dm.s.ctx)
 		err := rc.Process(dm.s.ctx, cmd)
-		if err != nil {
-			return protocol.ConvertError(err)
+		if err == nil {
+			err = cmd.Err()
 		}
-		err = protocol.ConvertError(cmd.Err())
 		if err != nil {
+			// The backup is unreachable or it has rejected the entry. Whether the Put
+			// succeeds is decided by the write quorum below, not by a single backup.
+			err = protocol.ConvertError(err)
 			if dm.s.log.V(3).Ok() {
 				dm.s.log.V(3).Printf("[ERROR] Failed to call put command on %s for DMap: %s: %v", owner, e.dmap, err)
 			}
